@@ -189,7 +189,7 @@ func scoreRef(b *built, cs [][]graph.Node, weight bool) (float64, string) {
 
 func checkProfileModular(t *vlib.T, b *built) {
 	sp := b.sp
-	if sp.edges() == 0 {
+	if sp.totalWeight() == 0 {
 		t.Outcome("no-edges-skipped")
 		return
 	}
@@ -238,8 +238,8 @@ func genExpandedNil(g *vlib.G) {
 	mk := func(directed bool) *built {
 		sp := &spec{n: 4, directed: directed, weighted: true}
 		for _, e := range [][2]int{{0, 1}, {1, 2}, {0, 2}, {2, 3}} {
-			sp.w[e[0]][e[1]] = 1
-			sp.w[e[1]][e[0]] = 1
+			sp.set(e[0], e[1], 1)
+			sp.set(e[1], e[0], 1)
 		}
 		return build(sp, 0, ordAsc, contSimple)
 	}
@@ -303,7 +303,7 @@ func checkProfileMultiplex(t *vlib.T, s graphSpace, idxs []int, idKind, order in
 	outcome := ""
 	for wi, ws := range [][]float64{nil, {1, 0.5}, {1, -1}} {
 		m := buildMultiplex(s, idxs, ws, idKind, order)
-		if m.sp[0].edges()+m.sp[1].edges() == 0 {
+		if m.sp[0].totalWeight()+m.sp[1].totalWeight() == 0 {
 			t.Outcome("no-edges-skipped")
 			return
 		}
